@@ -109,6 +109,21 @@ func c20(c *Ctx) {
 				}
 				_, _, gerr := kt.GetEncryptionKey(types.PrincipalName{NameString: []string{"nobody"}}, realm, 0, et)
 				addErr("keytab.GetEncryptionKey:notfound", gerr)
+				// look-ups that fail although the keytab holds a key for that very principal: another kvno, another
+				// etype, another realm (what a peer presenting a ticket for a kvno the service does not have gets back)
+				for li, q := range []struct {
+					comps []string
+					realm string
+					kvno  int
+					et    int32
+				}{{[]string{"testuser1"}, realm, 9, et}, {[]string{"testuser1"}, realm, 0, et%23 + 1}, {[]string{"HTTP", "host.test.gokrb5"}, realm, 5, et},
+					{[]string{"HTTP", "host.test.gokrb5"}, "OTHER.REALM", 0, et}, {[]string{"HTTP", "host.test.gokrb5"}, realm, 1, 3}} {
+					var lerr error
+					guard(func() {
+						_, _, lerr = kt.GetEncryptionKey(types.PrincipalName{NameType: 1, NameString: q.comps}, q.realm, q.kvno, q.et)
+					})
+					addErr(fmt.Sprintf("keytab.GetEncryptionKey:miss-%d", li), lerr)
+				}
 				// ---- credentials surfaces ----
 				cr := credentials.New("testuser1", realm).WithPassword(pwMarker)
 				cj, _ := cr.JSON()
